@@ -8,6 +8,9 @@ Lean: Model/Snd.lean (term language, denotation, operational semantics of the se
 Tie:  E0 - harness/e0/snd.cpp builds runtime pipelines from random terms on the real adaptors
            (every stage erased as unique_any_sender), driver model `snd` compares line by line;
            pool cases run schedule/continues_on/transfer_just on a real thread_pool_scheduler;
+      E0-static (C03s) - the same harness with `static=1|2`: STATICALLY TYPED pipelines
+           (harness/e0/snd_static.hpp: a catalogue of fully static shapes, and a reference-preserving
+           tier for arbitrary terms), same expected lines; exception / payload / late-delivery monitors;
       E1 - harness/e1/split.cpp runs the shared-state adaptors with 2-4 threads under the baton,
            driver model `shared` replays the hook-event log through the Lean acceptor.
 """
@@ -125,6 +128,158 @@ def gen_term(rng, budget, cx=None):
     return f'{op}(' + ','.join(kids) + ')'
 
 
+# ----------------------------------------------------------------------------- E0 static generator (C03s)
+U8 = ['then', 'lv', 'le', 'co', 'un', 'dv', 'rs', 'dos']
+U6 = ['then', 'lv', 'le', 'co', 'rs', 'dos']
+
+
+def s_ints(rng):
+    """mostly non-empty: a moved-from / lost value list must differ from the expected one"""
+    n = rng.weighted([(0, 1), (1, 5), (2, 5), (3, 3)])
+    return ':'.join(str(rng.below(15) - 5) for _ in range(n))
+
+
+def s_leaf(rng, perr=0.15, arg=False):
+    """a leaf of the static catalogue (just / err / stop / arg); perr = probability of the error channel"""
+    x = rng.below(1000) / 1000.0
+    if x < perr:
+        return f'err({1 + rng.below(9)})'
+    if x < perr + 0.08:
+        return 'stop()'
+    if arg and rng.below(3) != 0:
+        return 'arg()'
+    return f'just({s_ints(rng)})'
+
+
+def s_sch(rng, perr=0.3):
+    x = rng.below(1000) / 1000.0
+    if x < perr:
+        return f'e:{10 + rng.below(9)}'
+    if x < perr + 0.1:
+        return 's'
+    return 'v'
+
+
+def s_unary(rng, u, inner, perr):
+    """unary adaptor `u` over `inner`; let bodies are leaves (as in the catalogue)"""
+    if u == 'then':
+        return f'then({gen_fn(rng)},{inner})'
+    if u in ('lv', 'le'):
+        return f'{u}({gen_fn(rng)},{inner},{s_leaf(rng, perr, arg=True)})'
+    if u == 'co':
+        return f'co({s_sch(rng, perr)},{inner})'
+    return f'{u}({inner})'
+
+
+def s_storing(rng, kind, perr):
+    """when_all of 1-3 / when_all_vector / split / ensure_started over leaves; at most the error probability
+    perr per child, the first non-value child decides (inline completion, left to right)"""
+    if kind.startswith('wa'):
+        k = int(kind[2])
+        return 'wa(' + ','.join(s_leaf(rng, perr) for _ in range(k)) + ')'
+    if kind == 'wv':
+        return 'wv(' + ','.join(s_leaf(rng, perr) for _ in range(1 + rng.below(4))) + ')'
+    return f'{kind}({s_leaf(rng, min(0.6, perr * 1.5))})'
+
+
+S2_TEMPLATES = ['wa(then(F,L),L)', 'wa(L,dos(L))', 'wa(co(C,L),le(F,L,A))', 'wa(sp(L),es(L))', 'wa(wa(L,L),L)',
+                'wv(then(F,L),then(F,L))', 'wv(dos(L),dos(L),dos(L))', 'sp(wa(L,L))', 'es(wa(L,L))', 'sp(sp(L))',
+                'sp(then(F,L))', 'es(then(F,L))', 'sp(dos(L))', 'es(dos(L))', 'sp(le(F,L,A))', 'es(co(C,L))']
+
+
+def gen_pure_term(rng):
+    """an instance of a shape of the pure catalogue of harness/e0/snd_static.hpp (kept in step by hand; a term
+    that the harness does not recognise is simply re-run on the REF tier).  The error channel is
+    over-represented below dos / le / co."""
+    fam = rng.weighted([('US', 8), ('UU', 5), ('DUS', 5), ('XDS', 3), ('S', 2), ('UL', 2), ('UJ', 1), ('S2', 3)])
+    hot = lambda u: 0.55 if u in ('dos', 'le', 'co') else 0.2
+    if fam == 'US':
+        u = rng.weighted([(x, 3 if x in ('dos', 'le', 'co') else 1) for x in U8])
+        if rng.below(8) == 0:
+            u, kind = rng.weighted([(('dos', 'wa1'), 1), (('dos', 'wa3'), 1), (('then', 'wa3'), 1), (('le', 'wa3'), 1)])
+        else:
+            kind = rng.weighted([('wa2', 3), ('wv', 2), ('sp', 2), ('es', 2)])
+        return s_unary(rng, u, s_storing(rng, kind, hot(u)), hot(u))
+    if fam == 'UU':
+        u1 = rng.weighted([(x, 3 if x in ('dos', 'le', 'co') else 1) for x in U6])
+        u2 = rng.weighted([(x, 1) for x in U8])
+        pe = max(hot(u1), hot(u2))
+        return s_unary(rng, u1, s_unary(rng, u2, s_leaf(rng, pe), pe), pe)
+    if fam == 'DUS':
+        u = rng.weighted([(x, 1) for x in U8])
+        return f'dos({s_unary(rng, u, s_storing(rng, rng.weighted([("wa2", 1), ("sp", 1)]), 0.5), 0.5)})'
+    if fam == 'XDS':
+        x = rng.weighted([('le', 2), ('co', 1), ('then', 1)])
+        return s_unary(rng, x, f'dos({s_storing(rng, rng.weighted([("wa2", 1), ("sp", 1), ("es", 1)]), 0.55)})', 0.55)
+    if fam == 'S':
+        return s_storing(rng, rng.weighted([('wa1', 1), ('wa2', 2), ('wa3', 2), ('wv', 2), ('sp', 2), ('es', 2)]), 0.3)
+    if fam == 'UL':
+        u = rng.weighted([(x, 1) for x in U8])
+        return s_unary(rng, u, s_leaf(rng, hot(u)), hot(u))
+    if fam == 'UJ':
+        u = rng.weighted([('then', 1), ('dos', 1), ('lv', 1), ('co', 1)])
+        return s_unary(rng, u, f'just({s_ints(rng)})', 0.3)
+    t = S2_TEMPLATES[rng.below(len(S2_TEMPLATES))]
+    out = ''
+    for ch in t:
+        out += {'L': lambda: s_leaf(rng, 0.3), 'A': lambda: s_leaf(rng, 0.2, arg=True), 'F': lambda: gen_fn(rng),
+                'C': lambda: s_sch(rng)}.get(ch, lambda: ch)()
+    return out
+
+
+def gen_ref_term(rng, budget, hotness=0.15, inlet=False):
+    """random term for the REF tier: the adaptors of the task (dos/then/lv/le/co/un/dv/rs, when_all, split,
+    ensure_started) dominate; below dos / le / co the error channel is over-represented"""
+    if budget <= 1:
+        if rng.below(8) == 0:
+            return gen_leaf(rng, Ctx(inlet=inlet))
+        return s_leaf(rng, hotness, arg=inlet)
+    op = rng.weighted([('then', 5), ('lv', 4), ('le', 5), ('dv', 1), ('un', 2), ('co', 5), ('wa', 6), ('wv', 3), ('sp', 4),
+                       ('es', 4), ('st', 1), ('bulk', 1), ('rs', 2), ('dos', 7)])
+    b = budget - 1
+    hot = 0.5 if op in ('dos', 'le', 'co') else hotness
+    if op == 'then':
+        return f'then({gen_fn(rng)},{gen_ref_term(rng, b, hot, inlet)})'
+    if op in ('lv', 'le'):
+        if b < 2:
+            return s_leaf(rng, hotness, arg=inlet)
+        p1, p2 = split_budget(rng, b, 2)
+        return f'{op}({gen_fn(rng)},{gen_ref_term(rng, p1, hot, inlet)},{gen_ref_term(rng, p2, hotness, True)})'
+    if op in ('dv', 'un', 'sp', 'es', 'rs', 'dos'):
+        return f'{op}({gen_ref_term(rng, b, hot, inlet)})'
+    if op == 'bulk':
+        return f'bulk({rng.below(4)},{gen_fn(rng)},{gen_ref_term(rng, b, hot, inlet)})'
+    if op == 'co':
+        return f'co({s_sch(rng)},{gen_ref_term(rng, b, hot, inlet)})'
+    if op == 'st':
+        return f'st({rng.below(2)},{gen_ref_term(rng, b, hot, inlet)})'
+    k = min(b, 1 + rng.below(3)) if op == 'wa' else min(b, 1 + rng.below(4))
+    parts = split_budget(rng, b, k)
+    return f'{op}(' + ','.join(gen_ref_term(rng, pt, hot, inlet) for pt in parts) + ')'
+
+
+def gen_e0_static(rng, cid, pool=False):
+    """static=1: a shape of the pure catalogue (fully static, consumer recv); static=2: any term on the REF tier"""
+    if pool:
+        budget = rng.weighted([(2, 2), (3, 3), (4, 3), (6, 3)])
+        term = gen_term(rng, budget, Ctx(pool=True))
+        if '(p' not in term:
+            term = f'co(p,{term})'
+        mode, consumer = 2, rng.weighted([('recv', 8), ('detached', 1), ('sync', 1)])
+    elif rng.below(2) == 0:
+        term, mode, consumer = gen_pure_term(rng), 1, 'recv'
+    else:
+        budget = rng.weighted([(2, 2), (3, 4), (4, 4), (5, 3), (6, 2), (8, 1)])
+        term, mode, consumer = gen_ref_term(rng, budget), 2, rng.weighted([('recv', 7), ('detached', 1), ('sync', 2)])
+    spre = ' spre=1' if 'sp(' in term and rng.below(3) == 0 else ''
+    return f'case {cid} term={term} consumer={consumer} static={mode}{spre}\nendcase'
+
+
+def static_mode(c):
+    m = re.search(r' static=(\d)', c.split('\n')[0])
+    return int(m.group(1)) if m else 0
+
+
 def gen_e0(rng, cid, pool=False):
     budget = rng.weighted([(2, 2), (3, 3), (4, 3), (6, 4), (8, 3), (10, 2), (12, 2)])
     term = gen_term(rng, budget, Ctx(pool=pool))
@@ -204,6 +359,39 @@ def classify_e1(r):
     return 'tie'
 
 
+# ----------------------------------------------------------------------------- harness builds
+def compile_cached(name, src, variant, extra):
+    """compile_harness, skipped when the binary was built from exactly the same translation unit: the key is the
+    hash of the PREPROCESSED source (every pika header, the generated config headers and the harness text are in it),
+    the flags and the compiler version - so any change of the tree under test recompiles (fails closed: no key, no
+    reuse).  The static tiers take 25-45 s each to compile; with an unchanged tree they are reused."""
+    import hashlib
+    out = os.path.join(BIN, name)
+    keyf = out + '.key'
+    flags = pika_flags(variant)
+    incs = ' '.join(w for w in flags.split() if w.startswith(('-I', '-D', '-std')))
+    pre = sh(f'g++ -E {extra} {os.path.join(HERE, "harness", src)} {incs}')
+    key = None
+    if pre.returncode == 0:
+        ver = sh('g++ --version').stdout
+        lib = os.path.join(BUILD, f'pika-{variant}', 'lib', 'libpika.so')
+        key = hashlib.sha256((pre.stdout + '\0' + extra + '\0' + flags + '\0' + ver).encode()).hexdigest()
+        try:
+            if os.path.exists(out) and os.path.exists(lib) and open(keyf).read().strip() == key:
+                return True, out, 'cached'
+        except OSError:
+            pass
+    try:
+        os.remove(keyf)
+    except OSError:
+        pass
+    ok, hbin, log = compile_harness(name, src, variant, extra)
+    if ok and key:
+        with open(keyf, 'w') as f:
+            f.write(key)
+    return ok, hbin, log
+
+
 # ----------------------------------------------------------------------------- main
 def main():
     t0 = time.time()
@@ -217,9 +405,10 @@ def main():
     violations, known_lines = [], []
 
     # 1. proof obligations
-    # Props/C03.lean (term semantics, protocol of the shared state, when_all) and Props/C03Life.lean (ownership of
-    # the shared state: no touch after release, destroyed exactly once, pinned split_tuple witness)
-    PROPS = ['C03', 'C03Life']
+    # Props/C03.lean (term semantics, protocol of the shared state, when_all), Props/C03Life.lean (ownership of
+    # the shared state: no touch after release, destroyed exactly once, pinned split_tuple witness) and
+    # Props/C03s.lean (payload locations: every payload is read while its operation state is alive)
+    PROPS = ['C03', 'C03Life', 'C03s']
     ok_build, build_log = lean_build(PROPS)
     audit = {'obligations': 0, 'discharged': 0, 'problems': ['lake build failed'], 'theorems': [],
              'checker_cmd': f'cd {LEAN} && lake build'}
@@ -242,12 +431,19 @@ def main():
         # the ASan variant (touch-after-release of an operation state is a heap-use-after-free: the
         # terminal receiver deletes the operation state inside its completion call) runs in both
         # tiers; the three compiles run side by side
-        todo = [('e0_snd', 'e0/snd.cpp', '-O1'), ('e1_split', 'e1/split.cpp', '-O1'),
-                ('e0_snd_asan', 'e0/snd.cpp', '-O1 -g -fsanitize=address -fno-omit-frame-pointer')]
+        # C03s: the statically typed tiers are separate binaries of the same source (compile time): e0_snds = REF tier
+        # (-DSND_REF), e0_sndp = pure catalogue (-DSND_PURE), each plain and with ASan.  The slow ones go first.
+        ASAN = '-O1 -g -fsanitize=address -fno-omit-frame-pointer'
+        # (-O0 and no debug info for the static ASan builds: 25 % less compile time, nothing is optimised away; the ASan
+        # build of the REF tier has adaptor depth 2 instead of 3 - deeper sub-terms are erased once more often)
+        ASAN0 = '-O0 -fsanitize=address -fno-omit-frame-pointer'
+        todo = [('e0_sndp_asan', 'e0/snd.cpp', ASAN0 + ' -DSND_PURE -DSND_PURE_SMALL'), ('e0_snds_asan', 'e0/snd.cpp', ASAN0 + ' -DSND_REF -DSND_STATIC_DEPTH=2'),
+                ('e0_sndp', 'e0/snd.cpp', '-O1 -DSND_PURE'), ('e0_snds', 'e0/snd.cpp', '-O1 -DSND_REF'),
+                ('e0_snd_asan', 'e0/snd.cpp', ASAN), ('e0_snd', 'e0/snd.cpp', '-O1'), ('e1_split', 'e1/split.cpp', '-O1')]
         todo = [t for t in todo if os.path.exists(os.path.join(HERE, 'harness', t[1]))]
         from concurrent.futures import ThreadPoolExecutor
-        with ThreadPoolExecutor(max_workers=3) as tp:
-            done = list(tp.map(lambda t: (t[0],) + tuple(compile_harness(t[0], t[1], 'hooks', t[2])), todo))
+        with ThreadPoolExecutor(max_workers=6) as tp:
+            done = list(tp.map(lambda t: (t[0],) + tuple(compile_cached(t[0], t[1], 'hooks', t[2])), todo))
         for name, ok_h, hbin, hlog in done:
             if not ok_h:
                 ok_p = False
@@ -278,6 +474,7 @@ def main():
         for c in corpus:
             txt = open(c).read().strip()
             (e0_cases if ' term=' in txt else e1_cases).append(txt)
+        n_corpus_e0 = len(e0_cases)
         n0 = 30000 if tr == 'thorough' else 2000
         n0p = 5000 if tr == 'thorough' else 400
         n1 = 10000 if tr == 'thorough' else 600
@@ -285,12 +482,52 @@ def main():
             e0_cases.append(gen_e0(rng, f't{base_seed}n{i}'))
         for i in range(n0p):
             e0_cases.append(gen_e0(rng, f'p{base_seed}n{i}', pool=True))
+        # C03s: a third of the E0 cases are statically typed (added, the erased cases above are unchanged): half of
+        # them instances of the pure catalogue, half random terms on the REF tier, + pool terms on the REF tier;
+        # every E0 corpus case is also run on the REF tier
+        for c in e0_cases[:n_corpus_e0]:
+            if c.startswith('case ') and ' term=' in c and ' static=' not in c:
+                h, rest = c.split('\n', 1) if '\n' in c else (c, 'endcase')
+                hid = h.split()[1]
+                e0_cases.append(h.replace(f'case {hid} ', f'case {hid}-static ', 1) + ' static=2\n' + rest)
+        n0s = 15000 if tr == 'thorough' else 1000
+        n0sp = 2000 if tr == 'thorough' else 200
+        for i in range(n0s):
+            e0_cases.append(gen_e0_static(rng, f'u{base_seed}n{i}'))
+        for i in range(n0sp):
+            e0_cases.append(gen_e0_static(rng, f'q{base_seed}n{i}', pool=True))
         if 'e1_split' in builds:
             for i in range(n1):
                 e1_cases.append(gen_e1(rng, f's{base_seed}n{i}'))
 
+    def run_static(e0s, tag):
+        """statically typed E0 cases: static=1 on the pure binary (a term it does not recognise is re-run on the REF
+        tier), static=2 on the REF binary; all of them again under ASan except the pool cases"""
+        out = []
+        is_pool = lambda c: '(p' in c.split('\n')[0]
+        for suffix, label, keep in (('', '', lambda c: True), ('_asan', '-asan', lambda c: not is_pool(c))):
+            if 'e0_sndp' + suffix not in builds or 'e0_snds' + suffix not in builds:
+                continue
+            pure = [c for c in e0s if static_mode(c) == 1 and keep(c)]
+            ref = [c for c in e0s if static_mode(c) >= 2 and keep(c)]
+            if pure:
+                res = run_e1(builds['e0_sndp' + suffix], 'snd', pure, jobs=6, tag=PROP + tag + 'pure' + suffix)
+                for c, r in zip(pure, res):
+                    if 'final nomatch' in r['verdict']:
+                        ref.append(c.replace(' static=1', ' static=2', 1))
+                    else:
+                        out.append((classify_e0(r), c, r, 'E0-static-pure' + label))
+            if ref:
+                res = run_e1(builds['e0_snds' + suffix], 'snd', ref, jobs=6, tag=PROP + tag + 'ref' + suffix)
+                out += [(classify_e0(r), c, r, ('E0-static-pool' if is_pool(c) else 'E0-static-ref') + label) for c, r in zip(ref, res)]
+        return out
+
     def run_all(e0c, e1c, tag):
         out = []
+        e0s = [c for c in e0c if static_mode(c) > 0]
+        e0c = [c for c in e0c if static_mode(c) == 0]
+        if e0s:
+            out += run_static(e0s, tag)
         if e0c:
             res = run_e1(builds['e0_snd'], 'snd', e0c, jobs=6, tag=PROP + tag + 'e0')
             out += [(classify_e0(r), c, r, 'E0-pool' if '(p' in c.split('\n')[0] else 'E0') for c, r in zip(e0c, res)]
@@ -314,6 +551,7 @@ def main():
     extra_run = 0
     if (not proof_ok or kinds['tie'] > 0) and kinds['monitor'] == 0 and not replay:
         xe0 = [gen_e0(rng, f'x{base_seed}n{i}', pool=(i % 4 == 3)) for i in range(6000)]
+        xe0 += [gen_e0_static(rng, f'z{base_seed}n{i}', pool=(i % 8 == 7)) for i in range(3000)]
         xe1 = [gen_e1(rng, f'y{base_seed}n{i}') for i in range(3000)] if 'e1_split' in builds else []
         xres = run_all(xe0, xe1, 'x')
         extra_run = len(xres)
@@ -354,7 +592,7 @@ def main():
             k, c, r, eng = ties[0]
             p = write_replay(PROP, f'tie-{base_seed}.json',
                              {'property': PROP, 'kind': 'tie', 'engine': eng,
-                              'correspondence': 'E0: harness/e0/snd.cpp lines = Lean model Snd (exec and denotation) / E1: hook-event log of harness/e1/split.cpp (protocol events and every reference-count change sh.ref/sh.unref/sh.free) accepted by Lean model SharedLife over Shared',
+                              'correspondence': 'E0 and E0-static: harness/e0/snd.cpp lines = Lean model Snd (exec and denotation; static cases of the SndRef fragment also = SndRef.run) / E1: hook-event log of harness/e1/split.cpp (protocol events and every reference-count change sh.ref/sh.unref/sh.free) accepted by Lean model SharedLife over Shared',
                               'first_divergence': r['verdict'], 'case': c, 'impl_history': r['raw'],
                               'diverging_cases': len(ties), 'searched_cases': len(results) + extra_run})
             violations.append(f'VIOLATION property={PROP} replay={p} no-failing-input-found')
@@ -362,6 +600,7 @@ def main():
     # 4. evidence
     nontriv = set()
     dist = {}
+    pure_shapes = set()
     for k, c, r, eng in results:
         if k != 'pass':
             continue
@@ -377,6 +616,17 @@ def main():
             dist['sig_' + (m.group(1) if m else 'none')] = dist.get('sig_' + (m.group(1) if m else 'none'), 0) + 1
             if 'end crash' in r['raw']:
                 dist['terminated_by_design'] = dist.get('terminated_by_design', 0) + 1
+            # C03s coverage: how many cases ran statically typed, on which tier, with how many erased sub-terms
+            m = re.search(r'^xl end tier=(\w+) shape=(-?\d+) holes=(\d+)', r['raw'], flags=re.M)
+            if m and m.group(1) != 'erased' and 'asan' not in eng:
+                key = 'static_pure' if m.group(1) == 'pure' else ('static_ref_no_hole' if m.group(3) == '0' else 'static_ref_with_holes')
+                dist[key] = dist.get(key, 0) + 1
+                if m.group(1) == 'pure':
+                    pure_shapes.add(m.group(2))
+            for w in ('alive', 'null', 'dead'):
+                n = len(re.findall(r'^xl exc \S+ ' + w, r['raw'], flags=re.M))
+                if n:
+                    dist['exception_observations_' + w] = dist.get('exception_observations_' + w, 0) + n
         else:
             raw = r['raw']
             stored_cont = len(re.findall(r' sh\.seen2 \d+ 0 ', raw))
@@ -389,17 +639,20 @@ def main():
             dist['predecessor_completed_inline_in_consumer'] = dist.get('predecessor_completed_inline_in_consumer', 0) + inline
             for key in ('wa.fin', 'wa.latch', 'wa.store', 'wa.zero'):
                 dist[key] = dist.get(key, 0) + raw.count(f' {key} ')
+    dist['static_pure_distinct_shapes'] = len(pure_shapes)
     samples = (e0_cases[len([c for c in corpus if True]):][:2] + e1_cases[:1]) or (e0_cases + e1_cases)[:2]
+    samples += [c for c in e0_cases if ' static=1' in c][:1] + [c for c in e0_cases if ' static=2' in c][:1]
     cov = {
         'obligations': audit['obligations'], 'discharged': audit['discharged'],
         'checker_cmd': audit['checker_cmd'],
         'trusted_base': TRUSTED_BASE + [
             'E0 harness harness/e0/snd.cpp: term parser, instrumented payload type (ledger), probe/glue adaptors, terminal receiver; the Lean-side term parser in lean/Driver/SndDrv.lean',
+            'E0-static harness/e0/snd_static.hpp: the catalogue of statically typed shapes (PB<Shape>), the sum-of-senders alt / reference-preserving receiver handle rr of the REF tier, the static leaf, the exception ledger (reads the exception object address out of a libstdc++ exception_ptr), callable tokens',
             'the function language of user callables (add/rev/sum/dup/id/thr/throdd/const) and int-vector payloads stand for arbitrary callables and value types',
         ],
         'evaluations': len(results) + extra_run,
         'distinct_nontrivial': len(nontriv),
-        'rule': 'E0: random pipeline terms (2-12 nodes over just/err/stop/arg/schedule/transfer_just/then/let_value/let_error/drop_value/unpack/continues_on/bulk(generic)/require_started/drop_operation_state/when_all/when_all_vector/split/ensure_started/split_tuple, all three channels at leaves and inline schedulers, throwing callables, consumers terminal receiver / start_detached / sync_wait); E0-pool: the same terms with schedule/continues_on/transfer_just on pika thread_pool_scheduler of a running 2-worker runtime (completion on worker threads, ensure_started racing with the consumer, when_all predecessors racing; at most one non-value predecessor per when_all so that the denotation is order independent), results compared modulo placement after the runtime is idle; non-trivial = at least 3 operators, distinct = distinct (term, consumer). E1: split / ensure_started / split_tuple shared state and when_all counter with 2-5 threads under PRNG schedules; non-trivial = a continuation was stored or the counter was decremented concurrently',
+        'rule': 'E0-static (C03s): a third of the E0 cases are STATICALLY TYPED pipelines of the same term language with the same expected lines: static=1 = an instance of the pure catalogue (145 shapes: leaves; when_all of 1-3 / when_all_vector / split / ensure_started over leaves; each of then/let_value/let_error/continues_on/unpack/drop_value/require_started/drop_operation_state over a leaf, over just, over each storing predecessor and over each other; drop_operation_state over those; mixed storing shapes), one pika expression connected directly to the typed probe and terminal receiver, no erasure; static=2 = any term on the REF tier (sum types of senders to adaptor depth 3, receivers reached through a handle that forwards references, operation states nested in place; deeper sub-terms and st/bulk/when_all-of-4 are erased once = holes); leaves keep values / exception_ptr in their operation state and complete with references to them, let_value bodies read the predecessor values through the reference when started; error channel over-represented below drop_operation_state / let_error / continues_on; split optionally consumed once before the real consumer connects (spre=1); pool terms on the REF tier; all inline static cases again under ASan. E0: random pipeline terms (2-12 nodes over just/err/stop/arg/schedule/transfer_just/then/let_value/let_error/drop_value/unpack/continues_on/bulk(generic)/require_started/drop_operation_state/when_all/when_all_vector/split/ensure_started/split_tuple, all three channels at leaves and inline schedulers, throwing callables, consumers terminal receiver / start_detached / sync_wait); E0-pool: the same terms with schedule/continues_on/transfer_just on pika thread_pool_scheduler of a running 2-worker runtime (completion on worker threads, ensure_started racing with the consumer, when_all predecessors racing; at most one non-value predecessor per when_all so that the denotation is order independent), results compared modulo placement after the runtime is idle; non-trivial = at least 3 operators, distinct = distinct (term, consumer). E1: split / ensure_started / split_tuple shared state and when_all counter with 2-5 threads under PRNG schedules; non-trivial = a continuation was stored or the counter was decremented concurrently',
         'samples': samples,
         'traces_validated_against_impl': kinds['pass'],
         'disagreements_checked': kinds['tie'],
@@ -407,7 +660,8 @@ def main():
     }
     write_evidence(PROP, tr, base_seed, cov, time.time() - t0, len(violations), assumptions=[
         'the Lean term semantics is sequential (completion inline in start); in the E0-pool cases the real completion happens on worker threads and only the observable outcome (signal, consumer result, count, ledger) is compared with it; exhaustive interleavings are covered by the E1 tier for the shared-state adaptors and when_all only',
-        'every stage of an E0 pipeline is type-erased (unique_any_sender passes values by value), so lifetime errors of references into a destroyed predecessor operation state (drop_operation_state) cannot show in E0; the destruction itself and touch-after-destruction of operation states is modelled (freed/uaf) and proved, and checked on the implementation by ASan + the payload ledger',
+        'every stage of an erased E0 pipeline is type-erased (unique_any_sender passes values and errors by value, one heap block per stage), so lifetime errors of references into a destroyed predecessor operation state cannot show there; they are the subject of the E0-static cases (C03s): no erasure on the pure catalogue, reference-preserving receiver handles on the REF tier (an adaptor there sees the same reference arguments and the same nesting of operation states as in a fully static pipeline, but not the static type of its receiver), checked by the exception ledger (alive / same object at every read), the payload ledger, callable tokens and ASan, and proved for the fragment leaf/then/require_started/drop_operation_state/when_all(2)/split in Props/C03s.lean',
+        'values of the static pipelines are std::vector<P> (copyable, non-trivially destructible, every P in the ledger, moved-from P printed as such); a move-only value type is not used because drop_operation_state / split require copies of values received by reference',
         'sync_wait of a stopped pipeline and start_detached of a failing pipeline terminate the process by design; modelled as termination, not as a violation',
         'non-stdexec build: sends_done is false for every pika adaptor and for any_sender, so when_all_vector / split_tuple over such senders reach PIKA_UNREACHABLE on stopped; the harness puts a glue sender with sends_done=true below them (see notes/C03.md)',
     ])
